@@ -67,3 +67,19 @@ Theorem target_fixed_id minb maxb k : target_legacy minb maxb (2 ^ k) = 2 ^ k ->
 Proof. intros H. unfold target_fixed. rewrite H, order_pow2. reflexivity. Qed.
 Print Assumptions resize_terminates_fixed.
 Print Assumptions resize_nonpow2_refuted.
+
+(* bucket bounds: with max_nr_buckets a power of two the repaired target never exceeds it, and never drops below one bucket *)
+Lemma order_le_pow2 x m : 1 <= x -> x <= 2 ^ m -> order x <= m.
+Proof.
+  intros H1 H2. unfold order. destruct (N.eq_dec (x - 1) 0) as [->|Hne]; [cbn; lia|].
+  rewrite N.size_log2 by exact Hne. assert (N.log2 (x - 1) < m); [|lia].
+  apply N.log2_lt_pow2; lia.
+Qed.
+Theorem target_fixed_bounds minb m count : 1 <= minb -> minb <= 2 ^ m ->
+  1 <= target_fixed minb (2 ^ m) count <= 2 ^ m.
+Proof.
+  intros H1 H2. unfold target_fixed. split.
+  - pose proof (N.pow_nonzero 2 (order (target_legacy minb (2 ^ m) count)) ltac:(lia)). lia.
+  - apply N.pow_le_mono_r; [lia|]. apply order_le_pow2; unfold target_legacy; lia.
+Qed.
+Print Assumptions target_fixed_bounds.
